@@ -697,9 +697,21 @@ func (db *DB) Begin(opts ...*sql.TxOptions) *DB {
 	return tx
 }
 
+// isNilValue reports whether v holds a nil pointer (or another nil-able kind that is
+// nil); a value of a kind that cannot be nil, e.g. a struct handed out by a wrapping
+// pool, is not nil.
+func isNilValue(v interface{}) bool {
+	rv := reflect.ValueOf(v)
+	switch rv.Kind() {
+	case reflect.Ptr, reflect.Map, reflect.Slice, reflect.Func, reflect.Interface, reflect.Chan, reflect.UnsafePointer:
+		return rv.IsNil()
+	}
+	return !rv.IsValid()
+}
+
 // Commit commits the changes in a transaction
 func (db *DB) Commit() *DB {
-	if committer, ok := db.Statement.ConnPool.(TxCommitter); ok && committer != nil && !reflect.ValueOf(committer).IsNil() {
+	if committer, ok := db.Statement.ConnPool.(TxCommitter); ok && committer != nil && !isNilValue(committer) {
 		db.AddError(committer.Commit())
 	} else {
 		db.AddError(ErrInvalidTransaction)
@@ -710,7 +722,7 @@ func (db *DB) Commit() *DB {
 // Rollback rollbacks the changes in a transaction
 func (db *DB) Rollback() *DB {
 	if committer, ok := db.Statement.ConnPool.(TxCommitter); ok && committer != nil {
-		if !reflect.ValueOf(committer).IsNil() {
+		if !isNilValue(committer) {
 			db.AddError(committer.Rollback())
 		}
 	} else {
